@@ -444,7 +444,7 @@ func checkC18(c *Check) {
 						continue
 					}
 					// must be guarded by `<src>[0] != 0` on the value being stored, or come from a typed SMTP error
-					if v.K == absSym && v.Root != "" {
+					if v.K != absConst {
 						pt, found := ts.F.PtOf(s.Pos())
 						if !found {
 							bad = "undecided"
